@@ -68,8 +68,18 @@ RedactErr(e, x) == RedactErrT(e, x, "redacted")
 
 ----------------------------------------------------------------------------
 NilErr == [kind |-> "nil", op |-> "Get", url |-> "", inner |-> "cause"]
+(* The Op and Err fields of the *url.Error are INPUT as well: the obligation does not depend on them (a parse    *)
+(* error's URL text carries the credentials just like a request error's), and they must come back unchanged.   *)
+(*   op     "Get" | "Post" | "Head" | "parse" | "" | "dial" | "read" | "text" (arbitrary words) | "mixed" (gEt)  *)
+(*   inner  "cause" (a plain error) | "nil" | "wrapped" (an error wrapping one) | "urlerror" (another           *)
+(*          *url.Error holding the credentialed text, which is not top level and stays untouched)               *)
+ErrOps == {"Get", "Post", "Head", "parse", "", "dial", "read", "text", "mixed"}
+ErrInners == {"cause", "nil", "wrapped", "urlerror"}
 Errs == {NilErr} \cup {[kind |-> k, op |-> "Get", url |-> IF k \in {"top", "wrapped"} THEN t ELSE "", inner |-> "cause"] :
                          k \in ErrKinds, t \in ErrUrls}
+        \cup {[kind |-> k, op |-> o, url |-> "orig", inner |-> "cause"] : k \in ErrKinds \cap {"top", "wrapped"}, o \in ErrOps}
+        \cup {[kind |-> k, op |-> "Get", url |-> "orig", inner |-> i] : k \in ErrKinds \cap {"top", "wrapped"}, i \in ErrInners}
+        \cup {[kind |-> "top", op |-> "parse", url |-> "junk", inner |-> i] : i \in (IF "top" \in ErrKinds THEN ErrInners ELSE {})}
 
 (* The skeleton is chosen initially, the userinfos and the error in a first     *)
 (* step (TLC's workers share the enumeration), then the functions are called.   *)
